@@ -492,6 +492,8 @@ def _compareDocumentPosition(self, other):
             if sparent is oparent:
                 s = sparents[i+1]
                 o = oparents[j+1]
+                if s is o:
+                    continue
                 for item in sparent:
                    if item is s:
                        return Node.DOCUMENT_POSITION_FOLLOWING
